@@ -118,7 +118,11 @@ impl AsRef<[u32]> for SmtString {
 /// ```
 impl From<&str> for SmtString {
     fn from(x: &str) -> Self {
-        SmtString::make(x.chars().map(|c| c as u32).collect())
+        SmtString::make(
+            x.chars()
+                .map(|c| if c as u32 <= MAX_CHAR { c as u32 } else { REPLACEMENT_CHAR })
+                .collect(),
+        )
     }
 }
 
@@ -182,7 +186,7 @@ impl From<u32> for SmtString {
 ///
 impl From<char> for SmtString {
     fn from(x: char) -> SmtString {
-        SmtString::make(vec![x as u32])
+        SmtString::from(x as u32)
     }
 }
 
@@ -222,7 +226,8 @@ fn new_automaton() -> ParsingAutomaton {
 impl ParsingAutomaton {
     // add char x to the string so far
     fn push(&mut self, x: char) {
-        self.string_so_far.push(x as u32);
+        let x = x as u32;
+        self.string_so_far.push(if x <= MAX_CHAR { x } else { REPLACEMENT_CHAR });
     }
 
     // add char x to the pending array
